@@ -119,6 +119,7 @@ def run_property(pid, tier, use_cache=True, njobs=16, only=None, verbose=False):
     per_job = []
     samples = []
     vacuity_problems = []
+    kf_replayed = set()
     for j in js:
         r = results[j.name]
         if r["status"] == "undecided":
@@ -145,7 +146,13 @@ def run_property(pid, tier, use_cache=True, njobs=16, only=None, verbose=False):
                 kf = match_known(known, pid, j.name, tag, o)
                 if kf:
                     known_hits.append((kf, name))
-                    rel_ok += 0
+                    if kf["id"] not in kf_replayed:
+                        kf_replayed.add(kf["id"])
+                        try:
+                            from . import replay
+                            replay.write_and_replay(pid, name, j, o, r)
+                        except Exception:
+                            pass
                 else:
                     violations.append((name, j, o, r))
         if r["status"] in ("pass", "fail") and j.engine in ("E1", "E2") and n_vac == 0 and \
